@@ -539,6 +539,7 @@ func keyRun(ctx *Ctx) {
 	keyRunAccessPart(env)
 	t2 := time.Now()
 	keyRunRtPart(env)
+	keyRegSweep(env)
 	t3 := time.Now()
 	keyRunRetainPart(env)
 	fmt.Fprintf(os.Stderr, "key: lex %.1fs access %.1fs rt %.1fs retain %.1fs\n", t1.Sub(t0).Seconds(), t2.Sub(t1).Seconds(), t3.Sub(t2).Seconds(), time.Since(t3).Seconds())
